@@ -164,10 +164,18 @@ def build_menu(k):
         'scalars_b': lambda: (a5.get_num_cells(5), a5.cell_area(11), a5.get_resolution(k['c4']), a5.u64_to_hex(k['c4'])),
         'scalars_c': lambda: (a5.get_num_cells(9), a5.cell_area(3), a5.get_num_cells(2)),
         'uncompact_low': lambda: a5.uncompact([a5.get_res0_cells()[4]], 2),
+        # the child-count rule is public too (a5.core.cell_info) and is what uncompact / cell_to_children size their results with
+        'counts_a': lambda: (_ci().get_num_children(5, 8), _ci().get_num_children(2, 4), a5.get_num_cells(6), _ci().get_num_children(-1, 2)),
+        'counts_b': lambda: (_ci().get_num_children(3, 9), _ci().get_num_children(0, 3), _ci().get_num_children(7, 7)),
         # the curve-index functions are importable and used directly by callers: they are calls into the library too
         'hilbert_a': lambda: _hilbert_roundtrip((5, 'uw', 777), (9, 'wv', 201033)),
         'hilbert_b': lambda: _hilbert_roundtrip((5, 'uw', 123), (7, 'vu', 9001)),
     }
+
+
+def _ci():
+    from a5.core import cell_info
+    return cell_info
 
 
 def _hilbert_roundtrip(*cases):
@@ -191,8 +199,8 @@ def probe_values(k):
 
 GEO_A = ['lonlat_to_cell_r7_edge', 'cell_to_lonlat', 'boundary_seg2_edge', 'boundary_auto_r4', 'lonlat_to_cell_r29_centre_a']
 GEO_B = ['lonlat_to_cell_r7_edge', 'cell_to_lonlat', 'boundary_seg2_edge', 'lonlat_to_cell_r6_mid', 'lonlat_to_cell_r29_centre_b']
-INT_A = ['compact', 'uncompact', 'children_parent', 'scalars', 'scalars_b', 'uncompact_low', 'hilbert_a']
-INT_B = ['compact', 'scalars_c', 'uncompact_low', 'hilbert_b']
+INT_A = ['compact', 'uncompact', 'children_parent', 'scalars', 'scalars_b', 'uncompact_low', 'hilbert_a', 'counts_a']
+INT_B = ['compact', 'scalars_c', 'uncompact_low', 'hilbert_b', 'counts_b', 'children_parent']
 B_QUICK = GEO_B
 
 
@@ -422,6 +430,7 @@ def two_preemption_tasks(tier, k, solo_vals):
     """(A, B, warm, cap on A's occurrences, cap on B's occurrences, residue classes)"""
     if tier == 'quick':
         plan = [('scalars', 'scalars_b', False, None, None, 2),
+                ('counts_a', 'counts_b', False, None, None, 1),
                 ('uncompact', 'uncompact_low', False, (1, 0), (1, 0), 2),
                 ('compact', 'compact', False, (1, 0), (1, 0), 2),
                 ('boundary_closed_seg1', 'boundary_far_seg1', True, (1, 0), 'func', 16)]
@@ -429,6 +438,9 @@ def two_preemption_tasks(tier, k, solo_vals):
         plan = [('scalars', 'scalars_b', False, None, None, 2),
                 ('scalars_b', 'scalars', False, None, None, 2),
                 ('scalars', 'scalars_c', False, None, None, 1),
+                ('counts_a', 'counts_b', False, None, None, 1),
+                ('counts_b', 'counts_a', False, None, None, 1),
+                ('uncompact', 'counts_b', False, (2, 1), None, 4),
                 ('uncompact', 'uncompact_low', False, (2, 1), (2, 1), 8),
                 ('uncompact_low', 'uncompact', False, (2, 1), (2, 1), 8),
                 ('compact', 'compact', False, (2, 1), (2, 1), 8),
